@@ -34,7 +34,7 @@ func init() {
 			heurShapeLevels(r, mp, true)
 			if r.chance(0.15) { // tied weights
 				w := mp["weights"].(J)
-				for k := range w {
+				for _, k := range sortedJKeys(w) {
 					w[k] = float64(1 + r.Intn(2))
 				}
 			}
